@@ -8,6 +8,7 @@
 import Model.Bind
 import Lemmas.Bind
 import Lemmas.BindMore
+import Lemmas.Cbind
 
 namespace DI.C09
 
@@ -76,5 +77,98 @@ example : rbind [⟨1, ["a", "b"]⟩, ⟨2, ["c", "a"]⟩] =
     [("a", [Src.cell 0 "a" 0, Src.cell 1 "a" 0, Src.cell 1 "a" 1]),
      ("b", [Src.cell 0 "b" 0, Src.na, Src.na]),
      ("c", [Src.na, Src.cell 1 "c" 0, Src.cell 1 "c" 1])] := by decide
+
+/-! ### cbind -/
+
+/-- cbind: the result's column names are all column names of all frames (receiver first, then the
+    others in argument order), each name once, at its first-seen position. -/
+theorem cbind_names (frames : List Frame) (out : List OutCol) (h : cbind frames = some out) :
+    out.map (·.1) = uniqueKeys (frames.flatMap (·.names)) ∧ (out.map (·.1)).Nodup :=
+  cbind_names_eq frames out h
+
+/-- cbind keeps the first of duplicate names: every output column `c` consists of cells of the FIRST
+    frame `i` (in argument order, receiver = 0) that has a column named `c` — that column taken whole,
+    or its single row broadcast to the receiver's row count; no later frame's `c` is ever used. -/
+theorem cbind_keeps_first_of_duplicates (self : Frame) (others : List Frame) (out : List OutCol)
+    (h : cbind (self :: others) = some out) (c : String) (cells : List Src) (hc : (c, cells) ∈ out) :
+    ∃ i, ∃ hi : i < (self :: others).length,
+      c ∈ ((self :: others)[i]).names ∧ (∀ i' (h' : i' < i), c ∉ ((self :: others)[i']).names) ∧
+      Fitted i c ((self :: others)[i]).nrow self.nrow cells :=
+  cbind_first self others out h c cells hc
+
+/-- cbind leaves the receiver untouched: its own columns come first, in their order, every one whole
+    (all `self.nrow` cells, in row order).  No guard is needed for a receiver without columns: then
+    both sides are empty (see `cbind_empty_receiver` for what happens to the others' columns). -/
+theorem cbind_self_untouched (self : Frame) (others : List Frame) (out : List OutCol)
+    (h : cbind (self :: others) = some out) (hnd : self.names.Nodup) :
+    out.take self.names.length = self.names.map (fun c => (c, colCells 0 c self.nrow)) :=
+  cbind_self_first self others out h hnd
+
+/-- a receiver without columns (`if self` is false in `_reconcile_column`) imposes no row count:
+    the cbind generator never rejects and every first-occurrence column is taken whole, never broadcast
+    (ragged lengths are then left to the constructor's own check, C01 `constructor_wellformed`). -/
+theorem cbind_empty_receiver (self : Frame) (others : List Frame) (hemp : self.names = []) :
+    ∃ out, cbind (self :: others) = some out ∧
+      ∀ c cells, (c, cells) ∈ out → ∃ i, ∃ hi : i < (self :: others).length,
+        c ∈ ((self :: others)[i]).names ∧ (∀ i' (h' : i' < i), c ∉ ((self :: others)[i']).names) ∧
+        cells = colCells i c ((self :: others)[i]).nrow :=
+  cbind_empty_self self others hemp
+
+/-- the exact rejection condition of cbind: the receiver has columns, and some column that is used
+    (a first occurrence of its name) has a length that is neither the receiver's row count nor a
+    broadcastable 1 (broadcasting needs a receiver with at least one row).  Lengths of columns
+    shadowed by an earlier frame never matter. -/
+theorem cbind_rejects_mismatch (self : Frame) (others : List Frame) :
+    cbind (self :: others) = none ↔
+      self.names ≠ [] ∧ ∃ c i, ∃ hi : i < (self :: others).length,
+        c ∈ ((self :: others)[i]).names ∧ (∀ i' (h' : i' < i), c ∉ ((self :: others)[i']).names) ∧
+        ((self :: others)[i]).nrow ≠ self.nrow ∧ ¬ (((self :: others)[i]).nrow = 1 ∧ 1 ≤ self.nrow) :=
+  cbind_none_iff self others
+
+example : cbind [⟨2, ["a", "b"]⟩, ⟨1, ["b", "c"]⟩, ⟨2, ["c", "d"]⟩] =
+    some [("a", [Src.cell 0 "a" 0, Src.cell 0 "a" 1]), ("b", [Src.cell 0 "b" 0, Src.cell 0 "b" 1]),
+          ("c", [Src.cell 1 "c" 0, Src.cell 1 "c" 0]), ("d", [Src.cell 2 "d" 0, Src.cell 2 "d" 1])] := by decide
+
+/-- rejected: the used column "c" has 3 rows against 2; accepted when that column is shadowed. -/
+example : cbind [⟨2, ["a"]⟩, ⟨3, ["c"]⟩] = none ∧
+    cbind [⟨2, ["a", "c"]⟩, ⟨3, ["c"]⟩] =
+      some [("a", [Src.cell 0 "a" 0, Src.cell 0 "a" 1]), ("c", [Src.cell 0 "c" 0, Src.cell 0 "c" 1])] := by decide
+
+/-- a receiver without columns takes columns of any lengths as they are. -/
+example : cbind [⟨0, []⟩, ⟨2, ["a"]⟩, ⟨3, ["b"]⟩] =
+    some [("a", colCells 1 "a" 2), ("b", colCells 2 "b" 3)] := by decide
+
+/-! ### rename -/
+
+/-- rename honours the requested names: with distinct `from` names and non-colliding resulting names,
+    the result has the receiver's columns in the same order, column `c` under the name `renameTo toFrom c`
+    (the `to` paired with `from = c`, else `c` itself — see `rename_target`), every column whole. -/
+theorem rename_requested_names (self : Frame) (toFrom : List (String × String))
+    (hfrom : (toFrom.map (·.2)).Nodup) (hnames : (self.names.map (renameTo toFrom)).Nodup) :
+    rename self toFrom = self.names.map (fun c => (renameTo toFrom c, colCells 0 c self.nrow)) :=
+  rename_spec self toFrom hfrom hnames
+
+/-- what the requested name is: every pair `(to, from)` sends `from` to `to`; a name that is no
+    `from` stays. -/
+theorem rename_target (toFrom : List (String × String)) (hfrom : (toFrom.map (·.2)).Nodup) :
+    (∀ p ∈ toFrom, renameTo toFrom p.2 = p.1) ∧ (∀ c, c ∉ toFrom.map (·.2) → renameTo toFrom c = c) :=
+  ⟨renameTo_of_mem toFrom hfrom, renameTo_of_not_mem toFrom⟩
+
+/-- the resulting names do not collide when the receiver's names are distinct, the new names are
+    distinct, and a new name equals an existing column name only if that column is itself renamed
+    away (so swaps are fine). -/
+theorem rename_names_do_not_collide (self : Frame) (toFrom : List (String × String))
+    (hnd : self.names.Nodup) (hto : (toFrom.map (·.1)).Nodup)
+    (hclash : ∀ p ∈ toFrom, p.2 ∈ self.names → p.1 ∈ self.names → p.1 ∈ toFrom.map (·.2)) :
+    (self.names.map (renameTo toFrom)).Nodup :=
+  renameTo_nodup self.names toFrom hnd hto hclash
+
+/-- a swap and a plain rename in one call. -/
+example : rename ⟨1, ["a", "b", "c"]⟩ [("b", "a"), ("a", "b"), ("z", "c")] =
+    [("b", [Src.cell 0 "a" 0]), ("a", [Src.cell 0 "b" 0]), ("z", [Src.cell 0 "c" 0])] := by decide
+
+/-- why the non-collision hypothesis is needed: renaming onto a remaining name silently drops the
+    renamed column's values (the constructor's dict keeps the first position and the last value). -/
+example : rename ⟨1, ["a", "b"]⟩ [("b", "a")] = [("b", [Src.cell 0 "b" 0])] := by decide
 
 end DI.C09
